@@ -38,6 +38,8 @@ func baseAux() map[string]string {
 		"onlydefault.yml":  "version: '3'\ntasks:\n  default:\n    desc: only\n    aliases: [od]\n    cmds: [echo only-default]\n",
 		"nodefault.yml":    "version: '3'\ntasks:\n  a: echo a\n  b: {cmds: [echo b], aliases: [a2]}\n",
 		"#x/Taskfile.yml":  "version: '3'\ntasks: {h: echo hash-dir}\n",
+		// degenerate loop sources in an included task (deep-copied by the merge)
+		"loops.yml": "version: '3'\ntasks:\n  default:\n    cmds:\n      - for: {var: L, matrix: {}}\n        cmd: echo {{.ITEM}}\n      - for: {matrix: {A: []}}\n        cmd: echo {{.ITEM.A}}\n      - for: []\n        cmd: echo {{.ITEM}}\n      - for: {var: NOPE}\n        task: default\n",
 	}
 }
 
